@@ -32,22 +32,22 @@ func init() {
 	sim.Register(&sim.Scenario{Prop: "C14", Name: "provider-manager", Weight: 2, Run: runC14ProvMgr,
 		Real:   []string{"records.NewProviderManager / gcLoop / collectExpired / Close", "AddProvider / GetProviders in flight"},
 		Stub:   append([]string{"peerstore (real pstoremem)"}, stub...),
-		Faults: append([]string{"probe_close_during_gc", "probe_gc_disabled", "fault_ds_error_put", "fault_ds_error_query", "fault_ds_error_delete"}, c14CommonFaults...),
+		Faults: append(append([]string{"probe_close_during_gc", "probe_gc_disabled", "fault_ds_error_put", "fault_ds_error_query", "fault_ds_error_delete"}, c14OverlapFaults...), c14CommonFaults...),
 	})
 	sim.Register(&sim.Scenario{Prop: "C14", Name: "value-store", Weight: 2, Run: runC14ValueStore,
 		Real:   []string{"records.NewValueStore / StartGC / gcLoop / sweep / Close", "Put / Get in flight"},
 		Stub:   append([]string{"validator (harness rank validator)"}, stub...),
-		Faults: append([]string{"probe_close_during_gc", "probe_gc_disabled", "probe_gc_ctx_cancelled_first", "fault_ds_error_put", "fault_ds_error_get", "fault_ds_error_query", "fault_ds_error_delete"}, c14CommonFaults...),
+		Faults: append(append([]string{"probe_close_during_gc", "probe_gc_disabled", "probe_gc_ctx_cancelled_first", "fault_ds_error_put", "fault_ds_error_get", "fault_ds_error_query", "fault_ds_error_delete"}, c14OverlapFaults...), c14CommonFaults...),
 	})
 	sim.Register(&sim.Scenario{Prop: "C14", Name: "keystore", Weight: 2, Run: func(s *sim.Sim) { runC14Keystore(s, false) },
 		Real:   []string{"keystore.NewKeystore / worker / Close (size persisted after the worker exited)", "Put/Get/Delete/Empty/Size/ContainsPrefix/CountKeysUpTo in flight or queued behind the worker"},
 		Stub:   stub,
-		Faults: append([]string{"probe_close_op_queued", "fault_ds_error_commit", "fault_ds_error_query", "fault_ds_error_has"}, c14CommonFaults...),
+		Faults: append(append([]string{"probe_close_op_queued", "fault_ds_error_commit", "fault_ds_error_query", "fault_ds_error_has"}, c14OverlapFaults...), c14CommonFaults...),
 	})
 	sim.Register(&sim.Scenario{Prop: "C14", Name: "resettable-keystore", Weight: 3, Run: func(s *sim.Sim) { runC14Keystore(s, true) },
 		Real:   []string{"keystore.NewResettableKeystore / worker / ResetCids (phases A-C, cleanup) / Close (waits for in-flight alt-datastore write)", "shared-datastore and factory mode", "keystore operations in flight, Puts buffered during a reset (back-pressure)"},
 		Stub:   append([]string{"datastore factory (simds instances)"}, stub...),
-		Faults: append([]string{"probe_close_during_reset", "probe_close_op_queued", "probe_cfg_factory_mode", "probe_reset_completed", "fault_ds_error_commit", "fault_ds_error_query", "fault_ds_error_has"}, c14CommonFaults...),
+		Faults: append(append([]string{"probe_close_during_reset", "probe_close_op_queued", "probe_cfg_factory_mode", "probe_reset_completed", "fault_ds_error_commit", "fault_ds_error_query", "fault_ds_error_has"}, c14OverlapFaults...), c14CommonFaults...),
 	})
 }
 
@@ -113,6 +113,7 @@ func runC14ProvMgr(s *sim.Sim) {
 		}
 	}
 	f.closeFn = pm.Close
+	f.overlapOK = true
 	f.closeAt = s.Range("close-at", 0, 25)
 	f.interleave = s.Draw("interleave", 8)
 	f.run()
@@ -184,6 +185,7 @@ func runC14ValueStore(s *sim.Sim) {
 		}
 	}
 	f.closeFn = vs.Close
+	f.overlapOK = true
 	f.closeAt = s.Range("close-at", 0, 25)
 	f.interleave = s.Draw("interleave", 8)
 	f.run()
@@ -442,6 +444,7 @@ func runC14Keystore(s *sim.Sim, resettable bool) {
 		}
 	}
 	f.closeFn = ks.Close
+	f.overlapOK = true
 	f.closeAt = s.Range("close-at", 0, 40)
 	f.interleave = s.Draw("interleave", 10)
 	f.run()
